@@ -6,7 +6,7 @@ has a conclusive record state (Completed / Failed / Cancelled) before either exe
   * a test whose expression is (a negation of) a call of a *conclusive-state predicate* - a method that examines the states
     recorded for the instance id it is given for all three conclusive members - on `<request>.instance_id`,
   * that dominates both executor calls, whose "concluded" outcome reaches neither, and on which every path to the exit
-    passes _executing_command_done (the request leaves the executing list).
+    passes _executing_command_done, directly or through _finalize_command (the request leaves the executing list).
 
 Returns (ok: bool, FuncInfo of _execute_command, the dispatch nodes).
 """
@@ -20,6 +20,8 @@ from .util import cfg_of, call_attr
 CMQ = "openpectus.engine.command_manager:CommandManager"
 ENUM = "RuntimeRecordStateEnum"
 EXECUTORS = ("_execute_internal_command", "_execute_uod_command")
+# _finalize_command marks the request done on every path, also when finalize raises (C10 R10d)
+RETIRES = ("_executing_command_done", "_finalize_command")
 
 
 def is_conclusive_predicate(fn) -> bool:
@@ -57,7 +59,7 @@ def concluded_gate(prog, res):
     for t, lab in guards:
         reaches = g.search([(t.id, lab)], lambda n: any(n.id == d.id for d in disp), follow_exc=False)
         retires = g.path_to_exit_avoiding([(t.id, lab)], lambda n: n.ast is not None and any(
-            call_attr(c) == "_executing_command_done" for c in n.calls()), follow_exc=False)
+            call_attr(c) in RETIRES for c in n.calls()), follow_exc=False)
         if reaches is None and retires is None and all(g.dominates(t, d) for d in disp):
             ok_ = True
     return ok_, ec, disp
